@@ -179,16 +179,88 @@ func c03(c *an.Ctx) {
 			}
 		}
 		if flag == nil {
-			// emitted unconditionally (always correct) or under a direct condition
-			extra := 0
-			for _, g := range gs {
-				s := an.Expr(g.Cond)
-				if !strings.Contains(s, ".([]interface{})#1") && !strings.Contains(s, "Pointer()") && !strings.HasPrefix(s, "(len(") {
-					extra++
+			// no flag variable: the decision is made by control flow (early exits of a
+			// scan, possibly in an inlined helper) or the entry is always written
+			idxCalls := an.Calls(fn, an.Mod(dp, "", "computeReorderIndices"))
+			an.Need(len(idxCalls) == 1 && len(store.Block().Succs) == 1, "computeReorderIndices call / join after the reorder entry")
+			idxCall := idxCalls[0]
+			indices := idxCall.(ssa.Value)
+			after := store.Block().Succs[0].Instrs[0]
+			if !an.Reach(fn, idxCall, an.NewBlocker(store))[after] {
+				return // always emitted
+			}
+			isLenOf := func(v, of ssa.Value) bool {
+				call, ok := v.(*ssa.Call)
+				if !ok {
+					return false
+				}
+				b, ok := call.Call.Value.(*ssa.Builtin)
+				return ok && b.Name() == "len" && call.Call.Args[0] == of
+			}
+			eqEdge := func(iff *ssa.If, bo *ssa.BinOp) (eq, ne *ssa.BasicBlock) {
+				if bo.Op == token.EQL {
+					return iff.Block().Succs[0], iff.Block().Succs[1]
+				}
+				return iff.Block().Succs[1], iff.Block().Succs[0]
+			}
+			lenBlk := an.NewBlocker(store)
+			nLen := 0
+			var elem []*ssa.If
+			for _, b := range fn.Blocks {
+				iff, ok := b.Instrs[len(b.Instrs)-1].(*ssa.If)
+				if !ok {
+					continue
+				}
+				bo, ok := iff.Cond.(*ssa.BinOp)
+				if !ok || (bo.Op != token.EQL && bo.Op != token.NEQ) {
+					continue
+				}
+				if (isLenOf(bo.X, fn.Params[0]) && isLenOf(bo.Y, indices)) || (isLenOf(bo.Y, fn.Params[0]) && isLenOf(bo.X, indices)) {
+					eq, _ := eqEdge(iff, bo)
+					lenBlk.AddEdge(b, eq)
+					nLen++
+					o.Site(iff)
+					continue
+				}
+				for _, pr := range [][2]ssa.Value{{bo.X, bo.Y}, {bo.Y, bo.X}} {
+					ld, ok := pr[0].(*ssa.UnOp)
+					if !ok {
+						continue
+					}
+					ia, ok := ld.X.(*ssa.IndexAddr)
+					if ok && ia.X == indices && an.IsRangeIndex(ia.Index) && pr[1] == ia.Index && an.LoopSliceOf(ia.Index) == indices {
+						elem = append(elem, iff)
+					}
 				}
 			}
-			if extra > 0 {
-				o.FailAt(store, "the reorder entry is emitted under conditions the rule cannot classify: %v", an.GuardStrings(store.Block()))
+			if nLen == 0 {
+				o.FailAt(store, "the reorder entry can be omitted without len(old) having been compared with len(indices): a shrunk or grown array would keep its old length on the client")
+			} else if an.Reach(fn, idxCall, lenBlk)[after] {
+				o.FailAt(store, "the reorder entry can be omitted although len(old) != len(indices)")
+			}
+			if len(elem) != 1 {
+				o.FailAt(store, "expected one comparison of indices[i] with i deciding the omission, found %d", len(elem))
+				return
+			}
+			T := elem[0]
+			o.Site(T)
+			eq, ne := eqEdge(T, T.Cond.(*ssa.BinOp))
+			h := an.LoopHeaderOf(T)
+			if h == nil {
+				o.FailAt(T, "indices[i] is compared with i outside a loop")
+				return
+			}
+			if an.Reach(fn, ne.Instrs[0], an.NewBlocker(store))[after] {
+				o.FailAt(T, "an element with indices[i] != i does not force the reorder entry: the client would keep the old element at that position")
+			}
+			if eq != h && an.Reach(fn, eq.Instrs[0], an.NewBlocker(store, h.Instrs[0]))[after] {
+				o.FailAt(T, "the scan stops at the first position with indices[i] == i; later positions are not compared")
+			}
+			if !everyIteration(fn, h.Succs[0], T.Block(), h) {
+				o.FailAt(T, "some iterations skip the comparison of indices[i] with i")
+			}
+			if an.Reach(fn, idxCall, an.NewBlocker(store, h.Instrs[0]))[after] {
+				o.FailAt(store, "the reorder entry can be omitted without scanning indices")
 			}
 			return
 		}
